@@ -13,6 +13,7 @@ mod cksum;
 mod codec;
 mod path;
 mod seg;
+mod txn;
 mod udp;
 mod util;
 
@@ -94,6 +95,8 @@ fn main() {
         "path" => path::run(&opts, &mut out),
         "codec" => codec::run(&opts, &mut out),
         "udp" => udp::run(&opts, &mut out),
+        "recv" => txn::run_recv(&opts, &mut out),
+        "send" => txn::run_send(&opts, &mut out),
         other => {
             eprintln!("unknown engine {other}");
             std::process::exit(2);
